@@ -194,6 +194,87 @@ impl<M: Emu> RefMachine<M> {
         info
     }
 
+    /// the next instruction is outside the checked domain (None: it is inside)
+    pub fn next_out_of_domain(&mut self) -> Option<&'static str> {
+        if self.run != Run::Run {
+            return None;
+        }
+        if !executable(self.cpu.pc) {
+            return Some("executing outside ROM / work RAM / high RAM");
+        }
+        let op = self.t.read(self.cpu.pc);
+        if sm83::is_undefined(op) {
+            return Some("undefined opcode");
+        }
+        if op == 0x76 && self.pending() != 0 {
+            return Some("HALT executed while an enabled interrupt is pending");
+        }
+        None
+    }
+
+    /// One emulator step in block-stepped mode when the emulator has already made its step
+    /// and delivered `clocks` to the devices: the reference executes whole instructions until
+    /// it has consumed exactly that much time (cycles carried over from a dispatch included),
+    /// and in no case beyond the next block terminator. How long a block is - where the
+    /// emulator chooses to end one short of a terminator - is thereby left to the emulator;
+    /// what is fixed is that a block is a whole number of instructions, that the devices are
+    /// caught up once after it and that the interrupt check follows. If the time cannot be met
+    /// exactly the returned `clocks` differs from what was delivered, which the caller reports.
+    pub fn step_block_as(&mut self, clocks: u64) -> StepInfo {
+        if self.run != Run::Run {
+            return self.step_instruction();
+        }
+        let mut info = StepInfo {
+            executed: false,
+            opcode: 0,
+            ctl: Ctl::None,
+            instr_cycles: 0,
+            clocks: 0,
+            irq: IrqOutcome::Nothing,
+            was_suspended: false,
+            writes: vec![],
+            out_of_domain: None,
+        };
+        let mut cycles = self.carried;
+        loop {
+            if let Some(why) = self.next_out_of_domain() {
+                info.out_of_domain = Some(why);
+                return info;
+            }
+            let op = self.t.read(self.cpu.pc);
+            info.opcode = op;
+            let mut bus = CpuBus { m: &mut self.t, writes: vec![] };
+            let out = sm83::step(&mut self.cpu, &mut bus);
+            info.writes.extend(bus.writes);
+            info.executed = true;
+            info.ctl = out.ctl;
+            cycles += out.cycles;
+            info.instr_cycles += out.cycles;
+            if out.terminator || 4 * cycles as u64 >= clocks {
+                break;
+            }
+        }
+        self.carried = 0;
+        match info.ctl {
+            Ctl::None => {}
+            Ctl::Halt => self.run = Run::Halt,
+            Ctl::Stop => self.run = Run::Stop,
+            Ctl::Di => self.ime = Ime::Disabled,
+            Ctl::Ei | Ctl::Reti => self.ime = Ime::Enabled,
+        }
+        info.clocks = 4 * cycles as u64;
+        self.t.run_clocks(info.clocks as usize);
+        info.was_suspended = self.run != Run::Run;
+        let mut ic = IrqCpu { pc: self.cpu.pc, sp: self.cpu.sp, ime: self.ime, run: self.run, cycles: 0 };
+        info.irq = dispatch(&mut ic, &mut IrqTwin { m: &mut self.t });
+        self.cpu.pc = ic.pc;
+        self.cpu.sp = ic.sp;
+        self.ime = ic.ime;
+        self.run = ic.run;
+        self.carried += ic.cycles;
+        info
+    }
+
     /// One emulator step in block-stepped mode: instructions up to and including
     /// the next block terminator (or the end of the fetch region), devices caught
     /// up once, then the interrupt check. EI at the end of a block takes effect
